@@ -11,6 +11,12 @@ def unique_vs_full(inp):
     for spectrum in ([0.5, -0.5], [1.0, 0.0, -1.0], [1.0, 1.0, -0.5], [0.3, 0.3, 0.3], [1.0, 0.0, 0.0, -1.0], [0.0, 1.0, 3.0], [0.0, 0.5, 0.5, 2.0]):
         d = len(spectrum)
         O = np.diag(spectrum)
+        if len(spectrum) == 3 and spectrum[0] == 1.0:
+            # ... also written in a rotated (complex) basis: the coupling operator is then not diagonal
+            z = rng.normal(size=(d, d)) + 1j * rng.normal(size=(d, d))
+            q, _ = np.linalg.qr(z)
+            O = q @ O @ q.conj().T
+            O = (O + O.conj().T) / 2
         h = rng.normal(size=(d, d)) + 1j * rng.normal(size=(d, d))
         H = (h + h.conj().T) / 4
         a = rng.normal(size=(d, d)) + 1j * rng.normal(size=(d, d))
